@@ -17,6 +17,7 @@ from mc.common import reset_frame_state, replay_via
 
 ID = 'C13'
 LEVEL = 'exploration'
+PRELOAD = ['frame.geometry.geometry', 'frame.netlist.netlist', 'frame.die.die', 'frame.allocation.allocation', 'ruamel.yaml', 'mc.common', 'tools.force.fruchterman_reingold']
 RULE = ("dies {4x4, 10.5x2.5} (quick) + {6x3, 1x1, 0.3x0.7}; 2-module netlists: module A in {soft small, soft large, terminal+centre} x 9 lattice centres, module B "
         "the same or fixed rectangle / fixed terminal at 3 places, nets {none, weight 1, weight 2.5}; 3-module netlists on a reduced lattice with a 3-pin net or two "
         "2-pin nets; (kappa, max_iter) in {0.1,0.4,1,1.5,10}x{2} + {1}x{0,1,5,20}; force_algorithm with max_iter in {0,3}. "
